@@ -88,6 +88,7 @@ def alts(s):
 
 
 def run(ctx: Ctx):
+    differentiable_helpers(ctx)
     base = ctx.repo.get_class(BL, "REINFORCEBaseline")
     subs = [c for c in ctx.repo.modules["rl4co.models.rl.reinforce.baselines"].classes.values() if c is not base and base in ctx.repo.mro(c)]
     evals = [c for c in subs if "eval" in c.methods]
@@ -417,6 +418,26 @@ def _names(s, L):
         if v is s:
             out.add(k)
     return out
+
+
+def differentiable_helpers(ctx: Ctx):
+    """C16.e the helpers whose results enter a loss with gradient -- log-likelihood, step log-probabilities, entropy -- are not
+    evaluated under torch.no_grad / inference_mode (decorator or a with-block around the whole body): a no_grad entropy still
+    shows up in the loss VALUE but sends no gradient to the policy."""
+    import ast
+    targets = [("rl4co/utils/ops.py", "calculate_entropy"), ("rl4co/utils/decoding.py", "get_log_likelihood"), ("rl4co/utils/decoding.py", "process_logits"),
+               ("rl4co/utils/ops.py", "gather_by_index")]
+    for path, name in targets:
+        fi = ctx.repo.get_function(path, name)
+        ctx.fn(fi)
+        decos = [ast.unparse(d) for d in fi.node.decorator_list if any(k in ast.unparse(d) for k in ("no_grad", "inference_mode", "enable_grad(False"))]
+        body = [b for b in fi.node.body if not (isinstance(b, ast.Expr) and isinstance(b.value, ast.Constant))]
+        whole_with = len(body) == 1 and isinstance(body[0], ast.With) and any(k in ast.unparse(body[0].items[0].context_expr) for k in ("no_grad", "inference_mode"))
+        detached_ret = any(isinstance(n, ast.Return) and n.value is not None and isinstance(n.value, ast.Call) and isinstance(n.value.func, ast.Attribute) and n.value.func.attr == "detach" for n in ast.walk(fi.node))
+        ok = not decos and not whole_with and not detached_ret
+        ctx.ob("C16.e", f"{name}:differentiable", ok, fi.loc,
+               "evaluated with gradient tracking" if ok else f"runs under {decos or 'a no_grad block / returns a detached value'}: its result carries no gradient into the loss it is part of",
+               construct=f"{name}:no-grad")
 
 
 def run_thorough(ctx: Ctx):
